@@ -143,7 +143,85 @@ func allVarNodes(sc *gen.Script) []*gen.Var {
 func mutateNames(r *rng.R, sc *gen.Script) string {
 	vars := allVarNodes(sc)
 	for attempt := 0; attempt < 8; attempt++ {
-		switch r.Intn(10) {
+		switch r.Intn(13) {
+		case 10, 11: // an expression of any shape and typing, with uses at every depth, as a metadata value
+			fresh := ""
+			if r.Bool() {
+				fresh = "only_here_" + itoa(r.Intn(3))
+				sc.Vars = append(sc.Vars, &gen.VarDecl{Type: r.Pick("asset", "number", "monetary", "account", "string", "portion"), Name: fresh})
+			}
+			pickVar := func() gen.Expr {
+				switch {
+				case fresh != "" && r.Chance(1, 2):
+					return gen.V(fresh)
+				case len(sc.Vars) > 0 && r.Chance(2, 3):
+					return gen.V(sc.Vars[r.Intn(len(sc.Vars))].Name)
+				}
+				return gen.V("nowhere_declared_" + itoa(r.Intn(2)))
+			}
+			var build func(depth int) gen.Expr
+			build = func(depth int) gen.Expr {
+				switch k := r.Intn(8); {
+				case depth > 0 && k < 3:
+					op := byte('+')
+					if r.Bool() {
+						op = '-'
+					}
+					return &gen.Infix{Op: op, L: build(depth - 1), R: build(depth - 1)}
+				case depth > 0 && k < 5:
+					return &gen.Mon{Asset: build(0), Amount: build(depth - 1)}
+				case k < 7:
+					return pickVar()
+				}
+				return litOfType(r, r.Pick("number", "monetary", "account", "asset", "string", "portion"))
+			}
+			e := build(r.Range(1, 3))
+			if fresh != "" {
+				// the new variable is used at least once
+				e = &gen.Infix{Op: '+', L: e, R: &gen.Mon{Asset: gen.V(fresh), Amount: gen.N("1")}}
+				if r.Bool() {
+					e = &gen.Infix{Op: '-', L: gen.V(fresh), R: e.(*gen.Infix).L}
+				}
+			}
+			pos := r.Intn(len(sc.Stmts) + 1)
+			cl := &gen.Call{Name: "set_tx_meta", Args: []gen.Expr{gen.S("k"), e}}
+			sc.Stmts = append(sc.Stmts[:pos:pos], append([]gen.Stmt{cl}, sc.Stmts[pos:]...)...)
+			return "expression-of-any-typing"
+		case 12: // an argument of a call removed (the call has too few arguments; the others stay)
+			var calls []*gen.Call
+			for _, d := range sc.Vars {
+				if d.Origin != nil {
+					calls = append(calls, d.Origin)
+				}
+			}
+			for _, st := range sc.Stmts {
+				if cl, ok := st.(*gen.Call); ok {
+					calls = append(calls, cl)
+				}
+			}
+			if len(calls) == 0 || r.Chance(1, 3) {
+				// a new call with too few arguments, naming declared or undeclared variables
+				name := "undeclared_arg"
+				if len(sc.Vars) > 0 && r.Chance(2, 3) {
+					name = sc.Vars[r.Intn(len(sc.Vars))].Name
+				}
+				if r.Bool() || len(sc.Vars) == 0 {
+					sc.Stmts = append(sc.Stmts, &gen.Call{Name: r.Pick("set_tx_meta", "set_account_meta"), Args: []gen.Expr{gen.V(name)}})
+				} else {
+					d := sc.Vars[len(sc.Vars)-1]
+					if d.Origin == nil {
+						d.Origin = &gen.Call{Name: r.Pick("balance", "meta", "overdraft"), Args: []gen.Expr{gen.V(name)}}
+					}
+				}
+				return "call-with-too-few-arguments"
+			}
+			cl := calls[r.Intn(len(calls))]
+			if len(cl.Args) == 0 {
+				continue
+			}
+			i := r.Intn(len(cl.Args))
+			cl.Args = append(cl.Args[:i:i], cl.Args[i+1:]...)
+			return "remove-call-argument"
 		case 8, 9: // a use duplicated (or a new use added) as an extra argument of a call
 			var calls []*gen.Call
 			for _, d := range sc.Vars {
